@@ -175,18 +175,30 @@ def environments():
 def transform_once(exe, be, xml, cwd, tmpdir, prefix, extra_env, timeout=90):
     env = {'PATH': os.environ.get('PATH', '/usr/bin:/bin'), 'TMPDIR': tmpdir, 'TMP': tmpdir, 'HOME': os.environ.get('HOME', '/root')}
     env.update(extra_env)
+    # the text goes to a file: with stdout as destination the library's log lines ("[Info] HTTP server listening on
+    # tcp/30444" or "[Error] ... cannot bind", depending on what else runs on the machine) are mixed into it
+    out = os.path.join(tmpdir, 'out.txt')
     try:
-        p = subprocess.run(prefix + [exe, '-t' + be], input=xml.encode('utf-8'), stdout=subprocess.PIPE, stderr=subprocess.PIPE,
+        os.remove(out)
+    except OSError:
+        pass
+    try:
+        p = subprocess.run(prefix + [exe, '-t' + be, '-o', out], input=xml.encode('utf-8'), stdout=subprocess.PIPE, stderr=subprocess.PIPE,
                            cwd=cwd, env=env, timeout=timeout)
-        return p.returncode, p.stdout
+        try:
+            with open(out, 'rb') as f:
+                text = f.read()
+        except OSError:
+            text = b'<no output file>'
+        return p.returncode, text
     except subprocess.TimeoutExpired:
         return 'TIMEOUT', b''
 
 
 def cmdline(exe, be, cwd, tmpdir, prefix, extra_env, docfile):
     ev = ' '.join("%s=%s" % (k, ("$(printf 'x%%.0s' $(seq %d))" % len(v)) if len(v) > 200 else v) for k, v in sorted(extra_env.items()))
-    return 'cd %s && mkdir -p %s && env -i PATH=$PATH TMPDIR=%s %s %s %s -t%s < %s | md5sum' % (
-        cwd, tmpdir, tmpdir, ev, ' '.join(prefix), exe, be, docfile)
+    return 'cd %s && mkdir -p %s && env -i PATH=$PATH TMPDIR=%s %s %s %s -t%s -o %s/out.txt < %s; md5sum %s/out.txt' % (
+        cwd, tmpdir, tmpdir, ev, ' '.join(prefix), exe, be, tmpdir, docfile, tmpdir)
 
 
 MASK_C = [(re.compile(rb'_uscxml_[0-9A-F]{8}_'), b'_uscxml_########_'), (re.compile(rb'"[0-9A-F]{32}"'), b'"MD5"')]
@@ -457,8 +469,8 @@ def parse_dettr(line):
             r['ALL'] = tok[4:].split(',')
         elif tok.startswith('PMAP='):
             for e in tok[5:].split(','):
-                a, doc, pos, prefix = e.split('/')
-                r['PMAP'].append((a, doc, int(pos), prefix))
+                a, doc, pos, prefix, mdoc = e.split('/')
+                r['PMAP'].append((a, doc, int(pos), prefix, mdoc))
         elif tok.startswith('md5='):
             r['md5'] = tok[4:]
         elif tok.startswith('TRIE='):
@@ -534,8 +546,9 @@ def in_process_correspondence(c, vdriver, vmodel, docs, bits, work, quick):
             if len(bydoc) - 1 == len(ids) and all(x is not None for x in ids):
                 mlines.append('pmlblocks %s %s %s' % (bits, bydoc[0][0], ' '.join('%s %s' % (hexs(x.encode()), e[0]) for x, e in zip(ids, bydoc[1:]))))
                 mmeta.append(('pmlblocks', i, rep, r, outf))
-                for k, (x, (_, v)) in enumerate(zip(ids, kids)):
-                    mlines.append('pmlprefix %s %d %s %s' % (bits, k, hexs(x.encode()), v[0]))
+                for k, (x, e) in enumerate(zip(ids, bydoc[1:])):
+                    # e[4]: the DOMDocument of the ChartToPromela object of the k-th nested machine
+                    mlines.append('pmlprefix %s %d %s %s' % (bits, k, hexs(x.encode()), e[4]))
                     mmeta.append(('pmlprefix', i, rep, r, outf))
     mouts, _ = run_lines_sharded(vmodel, mlines, shards=4)
     agree = {'c': 0, 'pmlblocks': 0, 'pmlprefix': 0, 'evorder': 0}
